@@ -80,3 +80,137 @@ Lemma splits_migrate_frame_fields : forall wa who name ver w w',
   w' = w /\ w_bank w' = w_bank w /\ w_members w' = w_members w /\ w_admin w' = w_admin w /\
   w_gadmin w' = w_gadmin w /\ w_self w' = w_self w /\ w_denoms w' = w_denoms w.
 Proof. intros wa who name ver w w' H. apply splits_migrate_frame in H. subst. repeat split. Qed.
+
+(* ---------- conservation from the instantiation on ---------- *)
+Lemma supply_set : forall b a d v d',
+  supply (bank_set b a d v) d' + (if d' =? d then bal b a d else 0) =
+  supply b d' + (if d' =? d then v else 0).
+Proof.
+  induction b as [|[[a0 d0] v0] b IH]; intros a d v d'; cbn [bank_set supply bal].
+  - rewrite (N.eqb_sym d d'). destruct (d' =? d); lia.
+  - destruct ((a0 =? a) && (d0 =? d)) eqn:E; cbn [supply].
+    + apply andb_true_iff in E. destruct E as [_ E2]. apply N.eqb_eq in E2. subst d0.
+      rewrite (N.eqb_sym d d'). destruct (d' =? d); lia.
+    + specialize (IH a d v d'). destruct (d0 =? d'); destruct (d' =? d); lia.
+Qed.
+
+Lemma supply_send : forall b from to d amt b' d',
+  bank_send b from to d amt = Some b' -> supply b' d' = supply b d'.
+Proof.
+  intros b from to d amt b' d' H. unfold bank_send in H.
+  destruct (amt <=? bal b from d) eqn:E; [|discriminate]. apply N.leb_le in E.
+  inversion H; subst b'; clear H.
+  set (b1 := bank_set b from d (bal b from d - amt)).
+  pose proof (supply_set b from d (bal b from d - amt) d') as S1. fold b1 in S1.
+  pose proof (supply_set b1 to d (bal b1 to d + amt) d') as S2.
+  destruct (d' =? d); lia.
+Qed.
+
+Lemma supply_exec : forall msgs self b b' d, exec_sends b self msgs = Some b' -> supply b' d = supply b d.
+Proof.
+  induction msgs as [|m r IH]; intros self b b' d H; cbn [exec_sends] in H.
+  - inversion H; reflexivity.
+  - destruct m as [t d0 x| | |]; try discriminate.
+    destruct (bank_send b self t d0 x) as [b1|] eqn:E; [|discriminate].
+    rewrite (IH _ _ _ _ H). eapply supply_send; exact E.
+Qed.
+
+Lemma supply_step : forall w o w' d, step w o = Ok w' ->
+  supply (w_bank w') d = supply (w_bank w) d + deposited [o] d.
+Proof.
+  intros w o w' d H. destruct o as [d0 amt|s adds rems|s na|s dl]; cbn [deposited].
+  - cbn [step] in H. inversion H; subst; clear H. cbn [w_bank set_bank].
+    pose proof (supply_set (w_bank w) (w_self w) d0 (bal (w_bank w) (w_self w) d0 + amt) d) as S.
+    rewrite (N.eqb_sym d0 d). destruct (d =? d0); lia.
+  - pose proof (step_other_bank _ _ _ H) as E. cbn in E. rewrite E. lia.
+  - pose proof (step_other_bank _ _ _ H) as E. cbn in E. rewrite E. lia.
+  - destruct (step_distribute_inv _ _ _ _ H) as [msgs [_ [_ [_ [_ [_ [_ X]]]]]]].
+    rewrite (supply_exec _ _ _ _ d X). lia.
+Qed.
+
+Lemma xdeposited_app1 : forall x d, xdeposited [x] d = match x with XOp o => deposited [o] d | _ => 0 end.
+Proof. intros [[d0 amt| | |]|] d; cbn; try reflexivity. Qed.
+
+Lemma supply_xrun : forall wa xs w d,
+  supply (w_bank (xrun wa w xs)) d = supply (w_bank w) d + xdeposited xs d.
+Proof.
+  intros wa xs. induction xs as [|x r IH]; intros w d; cbn [xrun fold_left]; [cbn; lia|].
+  fold (xrun wa (xstep' wa w x) r). rewrite IH.
+  assert (supply (w_bank (xstep' wa w x)) d = supply (w_bank w) d + xdeposited [x] d) as ->.
+  { unfold xstep'. destruct (xstep wa w x) as [w'|] eqn:E.
+    - destruct x as [o|who name ver]; cbn [xstep] in E.
+      + rewrite (supply_step _ _ _ d E), xdeposited_app1. reflexivity.
+      + apply splits_migrate_frame in E. subst. cbn. lia.
+    - destruct x as [[d0 amt| | |]|]; cbn [xstep step] in E; try discriminate; cbn; lia. }
+  destruct x as [[d0 amt| | |]|]; cbn [xdeposited]; try lia. destruct (d0 =? d); lia.
+Qed.
+
+Lemma credit_fold_bank : forall cs w d,
+  supply (w_bank (fold_left credit_self cs w)) d = supply (w_bank w) d + coins_of cs d /\
+  bal (w_bank (fold_left credit_self cs w)) (w_self w) d = bal (w_bank w) (w_self w) d + coins_of cs d /\
+  w_self (fold_left credit_self cs w) = w_self w /\
+  w_members (fold_left credit_self cs w) = w_members w /\
+  w_admin (fold_left credit_self cs w) = w_admin w.
+Proof.
+  induction cs as [|c r IH]; intros w d; cbn [fold_left coins_of]; [repeat split; lia|].
+  destruct (IH (credit_self w c) d) as (A & B & C & D & E).
+  unfold credit_self in *. cbn [w_bank w_self w_members w_admin set_bank] in *.
+  pose proof (supply_set (w_bank w) (w_self w) (c_denom c) (bal (w_bank w) (w_self w) (c_denom c) + c_amount c) d) as S.
+  rewrite bal_set in B. rewrite N.eqb_refl in B. cbn [andb] in B.
+  rewrite (N.eqb_sym (c_denom c) d).
+  destruct (d =? c_denom c) eqn:Ed.
+  - apply N.eqb_eq in Ed. subst d. repeat split; try assumption; lia.
+  - repeat split; try assumption; lia.
+Qed.
+
+(* what the contract holds right after a funded instantiation is what was attached;
+   nothing else holds anything *)
+Lemma funded_init : forall self admin gadmin g cs d,
+  let w := init_world_funded self admin gadmin g cs in
+  bal (w_bank w) self d = coins_of cs d /\ supply (w_bank w) d = coins_of cs d /\
+  w_members w = g /\ w_admin w = admin.
+Proof.
+  intros self admin gadmin g cs d w. unfold w, init_world_funded.
+  destruct (credit_fold_bank cs (init_world self admin gadmin g) d) as (A & B & _ & D & E).
+  cbn in *. repeat split; try assumption; lia.
+Qed.
+
+(* never creates or loses coins, from the instantiation on: the total over all accounts is
+   what was attached to the instantiation plus what was deposited since *)
+Lemma conservation_from_instantiate : forall wa self admin gadmin g cs xs d,
+  supply (w_bank (xrun wa (init_world_funded self admin gadmin g cs) xs)) d = coins_of cs d + xdeposited xs d.
+Proof.
+  intros. rewrite supply_xrun. destruct (funded_init self admin gadmin g cs d) as (_ & S & _). cbn zeta in S. rewrite S. reflexivity.
+Qed.
+
+Lemma funded_wf : forall self admin gadmin ms g cs,
+  group_instantiate ms = Ok g -> wf_world (init_world_funded self admin gadmin g cs).
+Proof.
+  intros self admin gadmin ms g cs H. unfold init_world_funded.
+  assert (forall cs w, wf_world w -> wf_world (fold_left credit_self cs w)) as F.
+  { induction cs0 as [|c r IH]; intros w Hw; cbn [fold_left]; [exact Hw|].
+    apply IH. destruct Hw as [Hm Hd]. split; cbn; [exact Hm|apply insert_denom_ascending; exact Hd]. }
+  apply F. eapply init_wf; exact H.
+Qed.
+
+Lemma repeat_exact_funded : forall wa self admin gadmin ms g cs xs s dl w',
+  group_instantiate ms = Ok g ->
+  let w := xrun wa (init_world_funded self admin gadmin g cs) xs in
+  step w (Distribute s dl) = Ok w' ->
+  (forall d, count d (requested w dl) <= 1) ->
+  let W := total_weight (w_members w) in
+  W <> 0 /\ (1 <= length (w_members w) <= 25)%nat /\ can_distribute w s = true /\
+  forall d,
+    let k := if existsb (N.eqb d) (requested w dl) then held w d / W else 0 in
+    (forall m, In m (w_members w) -> m_addr m <> w_self w ->
+       bal (w_bank w') (m_addr m) d = bal (w_bank w) (m_addr m) d + m_weight m * k) /\
+    (forall a, is_member a (w_members w) = false -> a <> w_self w ->
+       bal (w_bank w') a d = bal (w_bank w) a d) /\
+    bal (w_bank w') (w_self w) d + W * k = held w d + weight_of (w_members w) (w_self w) * k /\
+    W * k <= held w d /\
+    (k <> 0 -> held w d - W * k = held w d mod W /\ held w d mod W < W).
+Proof.
+  intros wa self admin gadmin ms g cs xs s dl w' HG w H Hc.
+  apply (world_exact w s dl w'); try assumption.
+  unfold w. apply xrun_wf. eapply funded_wf; exact HG.
+Qed.
